@@ -89,8 +89,8 @@ Print Assumptions C04_sufficient_refuted.
     fail with DuplicateTypePath on them and [ensure_unique] ([add_to_groups]) puts the later one
     into the group of the earlier one.
 
-    PROVED for the fragment [teq_program_okb] (Model/ProgramTeq.v): every field records its type
-    name, is not [#[codec(compact)]], its type contains no Box / VecDeque, mentions only declared
+    PROVED for the fragment [teq_program_okb] (Model/ProgramTeq.v): no field is
+    [#[codec(compact)]]; every field type contains no Box / VecDeque, mentions only declared
     non-skipped parameters, and mentions them only directly or under Vec / array / tuple /
     Compact / Option / Result / Range / Cow; everything else in a field type (applications of
     other definitions, BTreeMap / BTreeSet - whose registry entries hide a [Vec<..>] field -,
@@ -107,7 +107,7 @@ Print Assumptions C04_sufficient_refuted.
 
     MISSING for the full statement - and FALSE as it stands, see [C04_instantiations_stay_cf_refuted]:
     parameters under applications of generic definitions and under BTreeMap / BTreeSet, Box /
-    VecDeque, compact-attribute fields, fields without recorded type names. *)
+    VecDeque, compact-attribute fields. *)
 From V Require Import Model.Program Model.ProgramSkel Model.ProgramTeq Model.ProgramExamples Model.Settings Model.Generate Model.Shape
   Proofs.KeepFirst Proofs.TeqComplete Proofs.ProgramExamples.
 
